@@ -38,6 +38,9 @@ func visitAndCheck(db *DB, hs *HSnap, shards, concurr int, errAt []int) (kind, d
 		defer mu.Unlock()
 		k := ncall
 		ncall++
+		if ncall > len(hs.Want)+len(errAt)+1000 {
+			return injected // an endless visit is cut short here and reported below
+		}
 		if errSet[k] {
 			failed++
 			return injected
@@ -45,7 +48,20 @@ func visitAndCheck(db *DB, hs *HSnap, shards, concurr int, errAt []int) (kind, d
 		evs = append(evs, visitEv{shard, b})
 		return nil
 	}
-	err := db.N.Visitor(hs.S, cb, shards, concurr)
+	var err error
+	done, stuck := runWithDeadlockProbe("nitro.(*Nitro).Visitor", func() { err = db.N.Visitor(hs.S, cb, shards, concurr) })
+	if !done {
+		if stuck {
+			return "does-not-terminate", fmt.Sprintf("Visitor(shards=%d, concurrency=%d) never returns: every goroutine of the call is parked on a call-local channel / wait group (identical in four consecutive goroutine-profile samples)", shards, concurr), ""
+		}
+		return "inconclusive", "Visitor did not return within the sampling budget and its goroutines are not all parked", ""
+	}
+	mu.Lock()
+	tooMany := ncall > len(hs.Want)+len(errAt)+1000
+	mu.Unlock()
+	if tooMany {
+		return "does-not-terminate", fmt.Sprintf("the callback was invoked %d times for a snapshot of %d items before the harness cut the visit short", ncall, len(hs.Want)), ""
+	}
 	if failed > 0 {
 		if err == nil {
 			return "error-swallowed", fmt.Sprintf("a callback returned an error (%d did) but Visitor(shards=%d, concurrency=%d) returned nil", failed, shards, concurr), ""
@@ -116,6 +132,10 @@ func runC10(c *rt.C) {
 			}
 			kind, detail, sig := visitAndCheck(db, hs, shards, concurr, errAt)
 			c.Evals(1)
+			if kind == "inconclusive" {
+				c.Inconclusive(detail)
+				break
+			}
 			if kind != "" {
 				c.Violate(kind, fmt.Sprintf("snapshot sn=%d (%d items, up to %d versions/key, %d physical nodes): %s", hs.Sn, len(hs.Want), maxv, total, detail),
 					map[string]interface{}{"mem": mem, "kv": kv, "keys": nKeys, "shards": shards, "concurrency": concurr, "err_at": errAt, "want": entriesToStrings(hs.Want, 40)})
@@ -139,6 +159,10 @@ func runC10(c *rt.C) {
 			for pos := 0; pos < len(hs.Want) && !c.Failed(); pos++ {
 				kind, detail, _ := visitAndCheck(db, hs, pick(r, 1, 2, 4, 16), pick(r, 1, 2, 4), []int{pos})
 				c.Evals(1)
+				if kind == "inconclusive" {
+					c.Inconclusive(detail)
+					break
+				}
 				if kind != "" {
 					c.Violate(kind, fmt.Sprintf("error injected at callback #%d: %s", pos, detail), map[string]interface{}{"mem": mem, "kv": kv})
 				}
@@ -172,7 +196,7 @@ func init() {
 		Technique: "runtime monitoring: callback event log checked for per-shard order, cross-shard partition order and multiset equality with the frozen model copy; injected callback errors",
 		Rule: "each case builds a seeded multi-version history (1-600 keys, snapshots kept open so pivots can be invisible versions) and visits every open snapshot with 8 random (shards ∈ {1,2,3,4,7,NumCPU,items+1,items+5,64}, concurrency ∈ {1,2,3,8,16}) pairs, every 4th with 1-2 injected callback errors, plus every error position for one small snapshot. " +
 			"evaluations = Visitor calls checked; distinct = (outcome incl. number of non-empty shards, shards>items?, concurrency, max physical versions per key, size class) tuples",
-		Assumptions: []string{"no writer runs during the visit in this check (concurrent writers/GC during visits are exercised by C01/C05 workloads)", "termination is observed (a hang would fire the wall-clock watchdog and be reported as inconclusive, never as held)"},
+		Assumptions: []string{"no writer runs during the visit in this check (concurrent writers/GC during visits are exercised by C01/C05 workloads)", "non-termination is reported in two structural forms: a deadlock (every goroutine of the Visitor call parked on call-local synchronisation, identical in four consecutive goroutine-profile samples) and an endless visit (more than items+1000 callback invocations); any other hang ends as inconclusive via the watchdog"},
 		Cases: func(t string) int {
 			if t == "thorough" {
 				return 4000
